@@ -13,6 +13,8 @@ from . import build as B
 from .sim import Sim, relerr
 from .ref import Ref
 
+EPSF = float(np.finfo(float).eps)
+
 REAL = ['openmdao Problem/Group/Component/System', 'vectors, transfers, jacobians, matrices', 'all solvers',
         'total_jac / relevance / coloring', 'NumPy/SciPy']
 STUBS = ['user components (affine/quadratic/implicit stubs logging every callback)', 'fault plan',
@@ -577,7 +579,8 @@ def standard_history(rng, world, nsteps=(3, 8), fault_p=0.25, set_p=0.5, extra=N
             ops.append({'op': 'run_model'})
             nf += 1
         elif extra is not None and r < 0.75:
-            ops.append(extra(rng, world))
+            e = extra(rng, world)
+            ops.extend(e if isinstance(e, list) else [e])
         else:
             ops.append(gen_totals_op(rng, world))
     ops.append(gen_totals_op(rng, world))
@@ -1631,7 +1634,7 @@ class C12(HistoryCheck):
     def world_knobs(self, rng):
         k = dict(ALL_KNOBS)
         k.update(cycle=rng.choice([0.0, 0.0, 0.5]), imp=rng.choice([0.0, 0.2]), quad=rng.choice([0.0, 0.4]),
-                 scaling=rng.choice([0.0, 0.0, 0.3]), res_ref=True, approx=0.6, mf=0.0,
+                 scaling=rng.choice([0.0, 0.0, 0.3]), res_ref=True, approx=0.6, approx_imp=True, mf=0.0,
                  nl=['nlbgs', 'newton', 'nlbj'], temps=False)
         return k
 
@@ -1687,10 +1690,11 @@ class C12(HistoryCheck):
         return ('colored',) if plan['knobs'].get('twin_colored') else ()
 
     @staticmethod
-    def finding_class(plan):
-        """Configuration classes of the two recorded findings (known_findings.json); evaluated on the plan
-        only, so that shrinking keeps a violation inside its class."""
+    def finding_classes(plan):
+        """Configuration classes of the recorded findings (known_findings.json) that apply to a plan, in order
+        of precedence; evaluated on the plan only, so that shrinking keeps a violation inside its class."""
         w, kn = plan['world'], plan['knobs']
+        out = []
         scoped = [(g_, a) for g_, a in (kn.get('group_approx') or {}).items() if g_ in w['groups']]
         if kn.get('approx_totals'):
             scoped.append(('', kn['approx_totals']))
@@ -1701,21 +1705,33 @@ class C12(HistoryCheck):
             if a['method'] == 'cs' and any(
                     s_['nl'] in ('newton', 'broyden') and s_['ln'].split('_')[0] in ('krylov', 'lnbgs', 'lnbj')
                     for gn, s_ in w['solvers'].items() if inside(gn, g_)):
-                return 'cs-across-newton-with-iterative-linear-solver'
+                out.append('cs-across-newton-with-iterative-linear-solver')
+                break
+        if any(o['op'] == 'apply_nonlinear' for o in plan['ops']) and any(
+                c['kind'] == 'imp' and (c.get('approx') or {}).get('method') == 'fd' and c['approx']['form'] != 'central'
+                for c in w['comps']):
+            out.append('one-sided-fd-of-implicit-component-on-stale-residuals')
         for g_, a in scoped:
-            anc = w['groups'][g_]['parent'] if g_ else None
+            anc = g_ if g_ else None       # (the approximated group's own linear solver is linearized too)
             while anc is not None:
                 if '_' in w['solvers'].get(anc, {'ln': 'runonce'})['ln']:
-                    return 'approximated-group-under-assembled-jacobian'
+                    out.append('approximated-group-under-assembled-jacobian')
+                    break
                 anc = w['groups'][anc]['parent'] if anc else None
         for g_, a in scoped:
             if g_ and any(c['kind'] == 'imp' and inside(c['group'], g_) for c in w['comps']):
-                anc = w['groups'][g_]['parent']
+                anc = g_
                 while anc is not None:
                     if w['solvers'].get(anc, {'ln': 'runonce'})['ln'].split('_')[0] in ('direct', 'krylov'):
-                        return 'approximated-group-holds-implicit-component'
+                        out.append('approximated-group-holds-implicit-component')
+                        break
                     anc = w['groups'][anc]['parent'] if anc else None
-        return None
+        return list(dict.fromkeys(out))
+
+    @classmethod
+    def finding_class(cls, plan):
+        c = cls.finding_classes(plan)
+        return c[0] if c else None
 
     def signature(self, plan, viol):
         sig = WorldCheck.signature(self, plan, viol)
@@ -1723,6 +1739,19 @@ class C12(HistoryCheck):
             cls = self.finding_class(plan)
             if cls:
                 sig += ':' + cls
+        elif viol['inv'] == 'I-12-partials' and \
+                'one-sided-fd-of-implicit-component-on-stale-residuals' in self.finding_classes(plan):
+            # the same recorded finding seen on the partials themselves
+            sig = 'I-12-values:one-sided-fd-of-implicit-component-on-stale-residuals'
+        elif viol['inv'] == 'I-exception' and 'direct.py:_linearize' in viol.get('ctx', '') and \
+                ('Singular entry found' in viol.get('msg', '') or 'is not full rank' in viol.get('msg', '')):
+            # the same two causes with another symptom: when the sub-jacobians the matrix is wrongly built
+            # from were never computed (partials approximated or set in compute_partials) the rows are zero
+            # and DirectSolver refuses the matrix instead of returning wrong totals
+            cls = [c_ for c_ in self.finding_classes(plan) if c_ in
+                   ('approximated-group-under-assembled-jacobian', 'approximated-group-holds-implicit-component')]
+            if cls:
+                sig = 'I-12-values:' + cls[0]
         return sig
 
     def gen_ops(self, rng, plan):
@@ -1732,6 +1761,11 @@ class C12(HistoryCheck):
             # run_linearize on a model that approximates its own totals is not a way a user computes an
             # approximation (Problem.compute_totals is); it also linearizes the root linear solver over
             # sub-jacobians the approximation never refreshed
+            if not model_level and rng_.random() < 0.35:
+                # linearize at a state that is not converged (an independent was moved, the model not re-run):
+                # approximated partials of implicit components then have a non-zero base residual
+                # (the residuals are evaluated first: one-sided differences take them as their base point)
+                return [gen_set(rng_, w), {'op': 'apply_nonlinear'}, {'op': 'linearize'}, {'op': 'run_model'}]
             return rng_.choice([gen_totals_op(rng_, w) if model_level else {'op': 'linearize'},
                                 gen_totals_op(rng_, w)])
         return standard_history(rng, plan['world'], nsteps=(2, 6), extra=extra, fault_p=0.2)
@@ -1749,6 +1783,8 @@ class C12(HistoryCheck):
             bracket = kind in ('totals', 'linearize') and sim.p is not None and getattr(sim, 'final', False) \
                 and sim.clean
             before = sim.state_bytes(with_resid=True) if bracket else None
+            sim._counts_before = dict(sim.rt.counts)
+            sim._partials_before = check.stub_partials(sim) if kind == 'linearize' and sim.p is not None else {}
             res, raised, fired = check._orig_do(sim, op)
             if kind in ('totals', 'linearize') and raised is not None and sim.viol and \
                     sim.viol[-1]['inv'] == 'I-converge' and (sim.knobs.get('approx_totals') or
@@ -1781,7 +1817,124 @@ class C12(HistoryCheck):
         finally:
             Sim.do = self._orig_do
 
+    @staticmethod
+    def stub_partials(sim):
+        """{(comp, of, wrt): value} of the sub-jacobians the approximating stubs currently hold."""
+        out = {}
+        try:
+            for c in sim.world['comps']:
+                if not c.get('approx'):
+                    continue
+                path = sim.absn(c['outs'][0]['name']).rsplit('.', 1)[0]
+                J = sim.p.model._get_subsystem(path)._jacobian
+                if J is None:
+                    continue
+                for o in c['outs']:
+                    for wrt in [i['name'] for i in c['ins']] + ([o['name']] if c['kind'] == 'imp' else []):
+                        try:
+                            out[(c['name'], o['name'], wrt)] = np.array(J[o['name'], wrt], dtype=float).copy()
+                        except Exception:
+                            pass
+        except Exception:
+            pass
+        return out
+
+    def check_partials_of_stubs(self, sim, viol):
+        """I-12-partials: after run_linearize, the sub-jacobians an approximating component holds equal the
+        plan's exact partials at the component's current inputs, within the method's bound (judged at any
+        state, converged or not -- a partial derivative does not care)."""
+        w = sim.world
+        approx_groups = [g_ for g_ in (sim.knobs.get('group_approx') or {}) if g_ in w['groups']]
+        for c in w['comps']:
+            a = c.get('approx')
+            if not a or any(c['group'] == g_ or c['group'].startswith(g_ + '.') for g_ in approx_groups):
+                continue
+            path = sim.absn(c['outs'][0]['name']).rsplit('.', 1)[0]
+            comp = sim.p.model._get_subsystem(path)
+            J = comp._jacobian
+            meth = 'apply_nonlinear' if c['kind'] == 'imp' else 'compute'
+            evals = sim.rt.counts.get((c['name'], meth), 0) - getattr(sim, '_counts_before', {}).get((c['name'], meth), 0)
+            if J is None or evals == 0:
+                # not linearized by this call (relevance leaves components out that no requested total needs)
+                continue
+            ins = {i['name']: np.array(comp._inputs._abs_get_val(path + '.' + i['name'], flat=True), dtype=float).real.copy()
+                   for i in c['ins']}
+            if not all(np.all(np.isfinite(v)) for v in ins.values()):
+                continue
+            mag = 1.0 + max([float(np.abs(v).max()) for v in ins.values()] + [0.0])
+            for o in c['outs']:
+                mag = max(mag, 1.0 + float(np.abs(np.array(sim.p.get_val(path + '.' + o['name']))).max()))
+            used = sim._used_fd_steps(c)
+            if a['method'] == 'cs':
+                bound = 1e-11 * mag * 8
+            else:
+                # effective steps: what the plan's step_calc gives at the current values (with OpenMDAO's
+                # documented minimum_step at zero), and what the framework holds from its first linearization
+                hs = []
+                wvals = list(ins.values()) + ([np.abs(np.array(sim.p.get_val(path + '.' + c['outs'][0]['name']))).ravel()]
+                                              if c['kind'] == 'imp' else [])
+                for x in wvals:
+                    x = np.abs(x)
+                    sc = a.get('step_calc', 'abs')
+                    if sc == 'abs':
+                        hs.append(np.array([a['step']]))
+                    elif sc in ('rel_avg', 'rel'):
+                        hs.append(np.array([max(a['step'] * float(x.sum()) / max(1, len(x)), 1e-12)]))
+                    elif sc == 'rel_legacy':
+                        hs.append(np.array([max(a['step'] * float(np.linalg.norm(x)), 1e-12)]))
+                    else:
+                        hs.append(np.maximum(a['step'] * x, 1e-12))
+                hs = np.concatenate(hs)
+                hmin = min(float(hs.min()), used[0]) if used else float(hs.min())
+                hmax = max(float(hs.max()), used[1]) if used else float(hs.max())
+                amax = max(float(np.abs(np.array(c['A'][o['name']][i['name']])).max()) for o in c['outs'] for i in c['ins'])
+                if c['kind'] == 'imp':
+                    amax = max(amax, float(np.abs(np.array(c['D'])).max()))
+                bound = 256 * EPSF * mag * (1.0 + amax) * 8 / hmin
+                if c.get('quad') and a['form'] != 'central':
+                    bound += float(np.abs(c['quad']['coef']).max()) * hmax * 2
+            for o in c['outs']:
+                pairs = [(i['name'], -1.0 if c['kind'] == 'imp' else 1.0, np.array(c['A'][o['name']][i['name']], dtype=float))
+                         for i in c['ins']]
+                if c['kind'] == 'imp':
+                    pairs.append((o['name'], 1.0, np.array(c['D'], dtype=float)))
+                for wrt, sign, A in pairs:
+                    want = sign * A
+                    q = c.get('quad')
+                    if q and q['out'] == o['name'] and q['in'] == wrt:
+                        want = want.copy()
+                        want[:, 0] += 2.0 * np.array(q['coef']) * ins[wrt][0]
+                    try:
+                        got = np.asarray(J[o['name'], wrt], dtype=float)
+                    except Exception:
+                        continue
+                    got = got.reshape(want.shape) if got.size == want.size else got
+                    if not np.any(got) and np.any(want):
+                        # relevance leaves partials wrt inputs that no requested total needs unapproximated
+                        # (all zero); whether a needed one is missing is judged through the totals
+                        sim.probes.inc('approximated_partial_left_zero_not_judged')
+                        continue
+                    prev = getattr(sim, '_partials_before', {}).get((c['name'], o['name'], wrt))
+                    if prev is not None and prev.size == got.size and np.array_equal(prev.ravel(), got.ravel()) and \
+                            float(np.abs(got - want).max()) > bound:
+                        # not refreshed by this linearization: relevance only re-approximates the partials a
+                        # requested total needs, the others keep the value of an earlier linearization point
+                        sim.probes.inc('approximated_partial_not_refreshed_not_judged')
+                        continue
+                    sim.probes.inc('approximated_partials_compared')
+                    if got.shape != want.shape or not np.all(np.isfinite(got)) or \
+                            float(np.abs(got - want).max()) > bound + 1e-9 * (1 + float(np.abs(want).max())):
+                        viol.append({'inv': 'I-12-partials', 'msg': f"approximated partial d({o['name']})/d({wrt}) of "
+                                     f"{c['name']} ({a}) after run_linearize: got {np.asarray(got).tolist()} exact "
+                                     f"{want.tolist()} (bound {bound:.3g}; state converged: {sim.clean})"})
+                        return False
+        return True
+
     def after_op(self, sims, op, outs, viol, ctx, log):
+        if op['op'] == 'linearize' and outs[0][1] is None and outs[0][2] == 0 and not sims[0].knobs.get('approx_totals') \
+                and sims[0].resid_current:
+            if not self.check_partials_of_stubs(sims[0], viol):
+                return False
         if len(sims) < 2 or op['op'] != 'totals':
             return True
         a, b = sims[0], sims[1]
